@@ -615,6 +615,16 @@ fn spawn_async_ao_list_in_task'''),
         ('trailing-gap-not-covered', 'brush-interactive/src/highlighting.rs', "            self.skip_ahead(global_offset + line.len());\n", ""),
         ('piece-end-not-reached', 'brush-interactive/src/highlighting.rs', "        self.skip_ahead(piece.end);\n    }", "    }"),
     ],
+    'U27': [
+        ('tab-stripping-follows-the-last-pending-document', 'brush-parser/src/tokenizer.rs', "                if !self.cross_state.current_here_tags.is_empty()\n                    && self.cross_state.current_here_tags[0].remove_tabs", "                if self\n                    .cross_state\n                    .current_here_tags\n                    .last()\n                    .is_some_and(|tag| tag.remove_tabs)"),
+        ('tab-stripping-if-any-pending-document-uses-dash', 'brush-parser/src/tokenizer.rs', "                if !self.cross_state.current_here_tags.is_empty()\n                    && self.cross_state.current_here_tags[0].remove_tabs", "                if self.cross_state.current_here_tags.iter().any(|tag| tag.remove_tabs)"),
+        ('tabs-stripped-anywhere-in-the-line', 'brush-parser/src/tokenizer.rs', "                    && (!state.started_token() || state.current_token().ends_with('\\n'))\n                    && c == '\\t'", "                    && c == '\\t'"),
+        ('stripped-tab-not-consumed', 'brush-parser/src/tokenizer.rs', "                    // Consume it but don't include it.\n                    self.consume_char()?;", "                    // Consume it but don't include it."),
+    ],
+    'U16b': [
+        ('alias-body-not-escaped', 'brush-builtins/src/alias.rs', "    std::format!(\"'{}'\", s.replace('\\'', \"'\\\\''\"))", "    std::format!(\"'{}'\", s.replace('\\'', \"'\"))"),
+        ('alias-quote-escaped-with-backslash-inside-quotes', 'brush-builtins/src/alias.rs', "s.replace('\\'', \"'\\\\''\")", "s.replace('\\'', \"\\\\'\")"),
+    ],
     'U16': [
         ('tilde-not-flagged-at-start', 'brush-core/src/escape.rs', "    matches!(c, '#' | '~')", "    matches!(c, '#')"),
         ('bang-not-flagged', 'brush-core/src/escape.rs', "            | '!'\n", ""),
